@@ -265,6 +265,53 @@ func c18R2(c *Ctx, r *Report) {
 				fmt.Sprintf("stack slot sized by SizeOf(%s) [resolved=%v] but aligned by AlignOf(%s) [resolved=%v]: a slot sized for one type and used for another is overrun by the stores that follow", ts, okS, ta, okA))
 		}
 	}
+	// the same obligation for the slot helpers: emitStackSlot(name, align, size) and stackAlloc(size, align)
+	slotFn := c.LookupFn(pkgQBE, "(*Generator).emitStackSlot")
+	stackFn := c.LookupFn(pkgQBE, "(*Generator).stackAlloc")
+	for _, fn := range c.AllFns(pkgQBE) {
+		info := fn.Info()
+		defs := localDefs(fn)
+		resolve := func(e ast.Expr, fnObj *types.Func) (string, bool) {
+			if cl, ok := ast.Unparen(e).(*ast.CallExpr); ok && isCallTo(info, cl, fnObj) {
+				return exprStr(cl.Args[0]), true
+			}
+			o := objOf(info, e)
+			if o == nil || len(defs[o]) == 0 {
+				return "", false
+			}
+			t := ""
+			for _, d := range defs[o] {
+				cl, ok := ast.Unparen(d).(*ast.CallExpr)
+				if !ok || !isCallTo(info, cl, fnObj) {
+					return "", false
+				}
+				if t != "" && t != exprStr(cl.Args[0]) {
+					return "", false
+				}
+				t = exprStr(cl.Args[0])
+			}
+			return t, true
+		}
+		for _, call := range callsIn(fn.Decl.Body, false) {
+			var alignE, sizeE ast.Expr
+			switch {
+			case slotFn != nil && isCallTo(info, call, slotFn.Obj) && len(call.Args) == 3:
+				alignE, sizeE = call.Args[1], call.Args[2]
+			case stackFn != nil && isCallTo(info, call, stackFn.Obj) && len(call.Args) == 2:
+				alignE, sizeE = call.Args[1], call.Args[0]
+			default:
+				continue
+			}
+			if o := objOf(info, sizeE); o != nil && isParamOf(fn, o) {
+				continue // a helper passing its own (size, align) parameters on: its callers are checked
+			}
+			nAlloc++
+			ta, okA := resolve(alignE, alignOf.Obj)
+			ts, okS := resolve(sizeE, sizeOf.Obj)
+			r.Check(okA && okS && ta == ts, rule, fn.Name(), "stack slot "+exprStr(call.Args[0])+": SizeOf/AlignOf of one type", c.pos(call.Pos()),
+				fmt.Sprintf("stack slot sized by SizeOf(%s) [resolved=%v] but aligned by AlignOf(%s) [resolved=%v]: a slot sized for one type and used for another is overrun by the stores that follow", ts, okS, ta, okA))
+		}
+	}
 	r.Floor(rule, nAlloc, 10, "QBE stack allocations")
 }
 
